@@ -229,6 +229,7 @@ fn remap(p: &Pol, lk: &[usize]) -> Pol {
     }
 }
 
+#[derive(Clone)]
 pub struct LeafMat {
     #[allow(dead_code)]
     pub depth: u8,
@@ -241,6 +242,7 @@ pub struct LeafMat {
     pub keys: Vec<usize>,
 }
 
+#[derive(Clone)]
 pub struct TapMat {
     pub internal: XOnlyPublicKey,
     pub spend_info: TaprootSpendInfo,
@@ -249,6 +251,7 @@ pub struct TapMat {
 
 /// Everything about one input: its descriptor, the output it spends, the scripts as the harness
 /// computes them, signatures and preimages that can be added.
+#[derive(Clone)]
 pub struct InputMat {
     pub outer: Outer,
     pub template: String,
@@ -576,6 +579,7 @@ pub fn make_input(pool: &Pool, rng: &mut Rng, ch: &Choice, next_key: &mut dyn Fn
     })
 }
 
+#[derive(Clone)]
 pub struct Case {
     pub tx: Transaction,
     pub inputs: Vec<InputMat>,
@@ -597,6 +601,9 @@ pub fn sign_all(pool: &Pool, case: &mut Case) -> Result<(), String> {
     let tx = case.tx.clone();
     let mut cache = SighashCache::new(&tx);
     for (idx, m) in case.inputs.iter_mut().enumerate() {
+        m.ecdsa_sigs.clear();
+        m.tap_leaf_msgs.clear();
+        m.tap_script_sigs.clear();
         let all = EcdsaSighashType::All;
         let ecdsa_msg: Option<Message> = match m.outer {
             Outer::Pkh | Outer::BarePk => Some(Message::from_digest(
@@ -774,4 +781,18 @@ pub fn both_utxo_base(case: &Case, pool: &Pool, j: usize, variant: usize) -> Psb
     p.inputs[j].witness_utxo = Some(w);
     p.inputs[j].non_witness_utxo = Some(prev);
     p
+}
+
+/// The same inputs spent by another transaction: other version, nLockTime and nSequences;
+/// everything is signed again for it.
+pub fn revariant(pool: &Pool, case: &Case, version: i32, lock_time: u32, seqs: &[u32]) -> Result<Case, String> {
+    let mut c = case.clone();
+    c.tx.version = transaction::Version(version);
+    c.tx.lock_time = absolute::LockTime::from_consensus(lock_time);
+    for (j, s) in seqs.iter().enumerate() {
+        c.tx.input[j].sequence = Sequence(*s);
+        c.inputs[j].sequence = Sequence(*s);
+    }
+    sign_all(pool, &mut c)?;
+    Ok(c)
 }
